@@ -31,8 +31,6 @@ def run(ck):
     rng = ck.rng.fork("splits")
     for ci, (p, rows) in enumerate(cases):
         cls = classes_of(p)
-        if "F13" in cls:
-            continue
         src = pp_prog(p)
         base = {"src": src, "n": len(rows), "state": False}
         if p['inputs']:
